@@ -657,7 +657,7 @@ def insert_hints(text, hints):
     return text, lost
 
 
-def n14_hoist(text):
+def n14_hoist(text, guard=None):
     """N14: item statements nested in a function body (`struct X..;`, `impl .. {..}`) are moved to module
     level (Verus does not support internal item statements); a hoisted `Drop::drop` gets the mode
     annotation Verus demands (`opens_invariants none no_unwind`). Returns (text, hoisted_text, records)."""
@@ -709,8 +709,19 @@ def n14_hoist(text):
         a, b = ft.toks[found[0]].start, ft.toks[endk].end
         item = text[a:b]
         if re.match(r'impl\b[^{]*\bDrop\s+for\b', item):
-            # a Drop guard's body only runs during unwinding, which this family does not model: keep it as external text
-            item = '#[verifier::external]\n' + item
+            # a Drop guard's body only runs during unwinding, which this family does not model: the `impl Drop` itself stays external text
+            copy = ''
+            if guard:
+                # ... but the SAME body is also emitted as an inherent method `unwind_drop` carrying the guard contract, so that
+                # "running the guard from the state at the potential panic point restores the invariant" is a checked obligation
+                m = re.match(r'impl(\s*<[^{]*?>)?\s+Drop\s+for\s+([^{]*?)\s*\{', item, re.S)
+                body = item[m.end():item.rindex('}')]
+                body = re.sub(r'\bfn\s+drop\s*\(\s*&mut\s+self\s*\)', 'fn unwind_drop(&mut self)\n    requires\n        %s\n    ensures\n        %s\n' % (
+                    ',\n        '.join(mark(l, e) for (l, e) in guard.get('requires', [])) + ',',
+                    ',\n        '.join(mark(l, e) for (l, e) in guard.get('ensures', [])) + ','), body, count=1)
+                copy = '\nimpl%s %s {%s}\n' % (m.group(1) or '', m.group(2), body)
+                recs.append(dict(rule='N14', before='Drop guard body', after='also emitted as inherent method unwind_drop under the guard contract'))
+            item = '#[verifier::external]\n' + item + copy
         hoisted.append(item)
         recs.append(dict(rule='N14', before='nested item: ' + squash(item)[:60], after='hoisted to module level'))
         text = text[:a] + text[b:]
